@@ -1,7 +1,7 @@
 NOTES = 'contract-based deductive verification with pyvc; see DESIGN.md'
 NOT_YET = {}
 TB = ('library models of os/shutil/posixpath/urllib/datetime (DESIGN.md section 3) are axioms validated only by bounded '
-      'differential checks; solver soundness; pyvc interpreter fidelity (engine-vs-CPython differential); '
+      'differential checks; solver soundness (every z3 sat model is re-evaluated); pyvc interpreter fidelity (no mechanised engine-vs-CPython proof: guarded by the native batteries, leaf oracles, the pinned-tree run and 120 seeded changes); '
       'argparse modelled for canonical argument vectors only (pyvc/argmodel.py; option VCs bounded to <= 2 option tokens)')
 claim('C10', 'deductive VCs (pyvc, z3+cvc5) over older_than / parse_deletion_date / ok_to_delete / Emptier; loop invariants',
       'every obligation generated from the current source (strict age comparison, first-DeletionDate-line parsing, TRASH_DATE clock, '
